@@ -223,9 +223,21 @@ fn check_type(ty: SignType, name: &str, expect: Option<(u8, u8, u32, u32)>, rep:
     if block.len() == 16 && w > 0 && h > 0 {
         let own = 0x0025u16;
         let img = RefPage::new(6, w, h).image();
-        for tweak in 0..3usize {
+        for tweak in 0..5usize {
             let mut off = block.clone();
             match (block[0], tweak) {
+                // the panel widths moved to the LAST two slots (the first two empty), and to the second and fourth
+                (4, 3) => {
+                    off[7] = block[5];
+                    off[8] = block[6];
+                    off[5] = 0;
+                    off[6] = 0;
+                }
+                (4, 4) => {
+                    off[8] = block[5];
+                    off[5] = 0;
+                }
+                (_, 3) | (_, 4) => continue,
                 (4, 0) => off[5] = off[5].wrapping_add(1),
                 (4, 1) => off[4] = off[4].wrapping_add(8),
                 (4, _) => off[7] = 0,
